@@ -222,6 +222,16 @@ def _universe_src() -> str:
         "CNT2 = collections.namedtuple('CNT2', ['a', 'b'])",
         "CNT3 = collections.namedtuple('CNT3', ['a', 'b', 'c'])",
     ]
+    # named tuple classes that INHERIT from a named tuple class (the documented way of adding methods)
+    L += ["class NT2sub(NT2):", "    __slots__ = ()", "    def first(self):", "        return self.a",
+          "class CNT2sub(CNT2):", "    __slots__ = ()"]
+    for name, det in (("NT2sub", "typing.NamedTuple-subclass"), ("CNT2sub", "collections.namedtuple-subclass")):
+        L.append(f"MAKE[{name!r}] = lambda a, b: {name}(a, b)")
+        _reg(name, "namedtuple", det, "arity2")
+    # a vars-only class whose instances do not all have the same attributes
+    L += ["class VO_opt:", "    def __init__(self, a, b=None):", "        self.a = a", "        if b is not None:", "            self.b = b",
+          "    def __repr__(self):\n        return 'VO_opt(%r)' % (vars(self),)", "MAKE['VO_opt'] = VO_opt"]
+    _reg("VO_opt", "vars-only", "vars-only", "optional-attribute")
     for pre, det in (("NT", "typing.NamedTuple"), ("CNT", "collections.namedtuple")):
         for n in (1, 2, 3):
             name = f"{pre}{n}"
@@ -270,6 +280,8 @@ def _map_contents(nmax):
 def _obj_descs(akinds):
     for name in CLASSES:
         bk = ("int",) if (FLAVOUR[name] != "namedtuple" or name.endswith("1")) else ("int", "tuple2")
+        if VARIANT[name] == "optional-attribute":
+            bk = ("int", "none")
         for b in bk:
             for a in akinds:
                 yield ("obj", name, a, b)
@@ -425,7 +437,7 @@ def build(desc):
         return u.CM(items), None, None
     if tag == "obj":
         _, name, a, b = desc
-        return u.MAKE[name](val(a, 0), 2 if b == "int" else ("y", 2)), None, None
+        return u.MAKE[name](val(a, 0), 2 if b == "int" else None if b == "none" else ("y", 2)), None, None
     _, c, ks = desc
     elems = [val(k, i) for i, k in enumerate(ks)]
     if c == "list":
